@@ -10,6 +10,7 @@ Values are JSON-encoded in cases:  ["i", n] ["f", x] ["s", text] ["l", [items]] 
 """
 import os
 import shutil
+import signal
 import tempfile
 
 from ..core import Prop, watchdog, WatchdogTimeout
@@ -19,6 +20,27 @@ LEAVES = [0, -3, 7, 2.5, 7.0, 0.1 + 0.2, "", "a", "it's", 'say "hi"']
 LEAVES_REP = [0, 7.0, 0.1 + 0.2, "a", "it's"]  # one per leaf class (int, whole float, 17-digit float, string, quoted string)
 MAX_DEPTH = 3
 CASE_WATCHDOG = 5
+
+
+class cpu_watchdog(object):
+    """like core.watchdog but counts CPU time of this process (ITIMER_PROF), so that it does not fire on a worker that
+    is merely starved on a loaded machine"""
+
+    def __init__(self, seconds):
+        self.seconds = seconds
+
+    def _handler(self, signum, frame):
+        raise WatchdogTimeout()
+
+    def __enter__(self):
+        self.old = signal.signal(signal.SIGPROF, self._handler)
+        signal.setitimer(signal.ITIMER_PROF, self.seconds)
+        return self
+
+    def __exit__(self, *exc):
+        signal.setitimer(signal.ITIMER_PROF, 0)
+        signal.signal(signal.SIGPROF, self.old)
+        return False
 
 
 # ------------------------------------------------------------------------------------------------
@@ -355,7 +377,7 @@ class ExportHarness(object):
             goal = Term("ret_" + sig, Constant(i), *outs)
             skip = 1
         try:
-            with watchdog(CASE_WATCHDOG):
+            with cpu_watchdog(CASE_WATCHDOG):
                 res = self.engine.query(self.db, goal)
             return ("ok", [tuple(r[skip:]) for r in res])
         except WatchdogTimeout:
@@ -377,7 +399,7 @@ class ExportHarness(object):
 
         src = self.program + "".join("query(ret_%s(%d,%s)).\n" % (sig, i, "X,Y" if sig == "two" else "X") for i in idxs)
         try:
-            with watchdog(60):
+            with watchdog(600):  # wall clock: the compiler may run as a subprocess
                 res = get_evaluatable().create_from(PrologString(src)).evaluate()
         except WatchdogTimeout:
             return ("timeout",)
@@ -423,6 +445,8 @@ def export_check(h, sig, i, v):
     exp = expected_results(sig, v)
     problems = []
     direct = h.call(sig, i)
+    if direct[0] == "timeout":
+        return [("unjudged-watchdog", "no answer within %d s" % CASE_WATCHDOG)]
     if direct[0] != "ok":
         return [("export-%s:%s" % (":".join(str(x) for x in direct[:2]), sig), repr(direct))]
     if len(direct[1]) != 1:
@@ -436,9 +460,13 @@ def export_check(h, sig, i, v):
         return problems
     if sig != "two":
         viar = h.call(sig, i, via=True)
+        if viar[0] == "timeout":
+            return [("unjudged-watchdog", "no answer within %d s" % CASE_WATCHDOG)]
         if viar[0] != "ok" or len(viar[1]) != 1 or repr(viar[1][0]) != repr(outs):
             problems.append(("export-via-clause:%s" % sig, "direct %r, through a clause %r" % (outs, viar)))
     boundr = h.call(sig, i, bound=outs)
+    if boundr[0] == "timeout":
+        return [("unjudged-watchdog", "no answer within %d s" % CASE_WATCHDOG)]
     if boundr[0] != "ok" or len(boundr[1]) != 1:
         problems.append(("export-bound-output:%s" % sig,
                          "calling with the output bound to the returned term %s gives %r" % (list(outs), boundr)))
@@ -612,6 +640,11 @@ class C28(Prop):
                     acc.transitions += 4  # direct call, through a clause, output bound to the result / another value
                     acc.nontrivial += 1
                     probs = export_check(h, sig, j, v)
+                    if probs and probs[0][0] == "unjudged-watchdog":
+                        acc.counters["unjudged:watchdog"] += 1
+                        acc.cap("per-case watchdog (%d s CPU) fired: those calls are not judged (unjudged:watchdog)"
+                                % CASE_WATCHDOG)
+                        continue
                     if not probs:
                         acc.outcomes["export:ok:" + sig] += 1
                         continue
@@ -639,6 +672,7 @@ class C28(Prop):
             acc.transitions += len(idxs)
             if res[0] == "timeout":
                 acc.counters["unjudged:pipeline-watchdog"] += 1
+                acc.cap("pipeline watchdog (600 s) fired: that batch of queries is not judged")
                 continue
             if res[0] != "ok":
                 acc.outcomes["pipeline-" + ":".join(str(x) for x in res[:2])] += 1
